@@ -54,6 +54,9 @@ def run(chk):
     chk.sample(ev[len(cases) // 2])
     chk.sample([e for e in ev if e["kind"] == "cd"][3])
     cerlib.run_config(chk, "C03clientQ", PREFIXES)
+    # ... and what the client emits for authenticators built with the default transports, none, or one; with and
+    # without extension outputs (credProps, prf)
+    cerlib.run_config(chk, "C14emit", PREFIXES)
     if thorough:
         cerlib.run_config(chk, "C02client", PREFIXES)
     chk.cov["rule"] = ("parse: the full product of presentations (request type x binary presentation x timeout x algorithm presentation x unknown enumeration place x unknown member level x optional pattern), "
